@@ -51,6 +51,13 @@ var props = []*prop{
 		Rule:     "one case = one simulated run: 1-8 concurrent callers x 1-5 calls with unique payloads through one real ServantProxy; the scripted server answers each request by a tape-drawn plan (immediate, delayed, duplicated, stray unused id first, id-0 push frame first, around the deadline, late, replay after completion), reads fragmented and deliveries delayed per tape, id counter preset near MaxInt32/-1 in some runs; distinct = distinct (event-log hash, switch trace hash); non-trivial = at least one preemption, stall or fired fault",
 	},
 	{
+		ID: "C09", Binary: "simcore", Quick: 1600, Thorough: 40000, RunWall: 120 * time.Second,
+		Variants: []variant{{Scenario: "c09", Params: map[string]string{"faults": "on"}, Weight: 3}, {Scenario: "c09", Params: map[string]string{"faults": "off", "stalls": "off"}, Weight: 1}},
+		Real:     fullStackReal,
+		Stub:     append([]string{netStub, "server -> scripted peer (reference codec) with tape-drawn misbehaviour"}, commonStub...),
+		Rule:     "one case = one simulated run: 1-6 concurrent callers x 1-4 calls through one real ServantProxy with tape-drawn proxy/per-call/context deadlines, dial/write/read time-outs and send-queue length; the peer's behaviour is drawn per connection (close on accept, never read, silent, garbage) and per request (immediate, never, around the deadline, late, close after request, half a response then close, reset, garbage, other id first), plus address faults (refused, black-holed, refuse-then-heal, crash and restart); a fault-free variant (every call must succeed) runs separately; distinct = distinct (event-log hash, switch trace hash); non-trivial = at least one preemption, stall or fired fault",
+	},
+	{
 		ID: "C19", Binary: "simcore", Quick: 6000, Thorough: 120000, RunWall: 60 * time.Second,
 		Variants: []variant{{Scenario: "c19", Weight: 1}},
 		Real:     []string{"tars/util/gpool (instrumented from the working tree)"},
